@@ -154,6 +154,9 @@ type mDB struct {
 	// the latest committed state plus its own writes (READ COMMITTED), row / key / advisory locks are held until
 	// the transaction ends, and Commit replays the transaction's writes on the then-current committed state
 	concurrent bool
+	// freshPairs: model GetBalances on (account, asset) pairs that have no row yet by PostgreSQL's one-snapshot rule for
+	// a statement with a data-modifying CTE (see GetBalances); off, every pair is treated as having a row
+	freshPairs bool
 	locks      map[string]*mTx
 	waiting    map[*mTx]string
 	commitLog  []string // what committed, in commit order (for ordering obligations)
@@ -506,18 +509,36 @@ func (s *mStore) GetBalances(ctx context.Context, query ledgerstore.BalanceQuery
 	if err := s.enter("GetBalances"); err != nil {
 		return nil, err
 	}
-	// SELECT ... FOR UPDATE in (account, asset) order: row locks held until the transaction ends
+	// WITH ins AS (INSERT zero rows ON CONFLICT DO NOTHING) SELECT ... FOR UPDATE in (account, asset) order.
+	// One statement, one snapshot: a pair that has no row when the statement starts gets one from the CTE (the insert
+	// waits on a concurrent uncommitted insert of the same key), but the SELECT of the same statement does not see
+	// rows the CTE inserts, nor rows committed after the statement started: such a pair yields no row — the caller
+	// reads zero — and no row lock. A pair that has a row is locked (waiting if need be) and read in its latest version.
 	accounts := make([]string, 0, len(query))
 	for account := range query {
 		accounts = append(accounts, account)
 	}
 	sort.Strings(accounts)
+	absent := map[string]bool{}
+	if s.db.concurrent && s.db.freshPairs {
+		for _, account := range accounts {
+			for _, asset := range query[account] {
+				if !s.hasRow(account, asset) {
+					absent[volKey(account, asset)] = true
+				}
+			}
+		}
+	}
 	for _, account := range accounts {
 		assets := append([]string(nil), query[account]...)
 		sort.Strings(assets)
 		for _, asset := range assets {
 			if err := s.lock(volKey(account, asset)); err != nil {
 				return nil, s.fail(err)
+			}
+			if absent[volKey(account, asset)] && !s.hasRow(account, asset) {
+				acc, as := account, asset
+				s.apply(func(st *mState) { s.volumesIn(st, acc, as) }) // the zero row
 			}
 		}
 	}
@@ -527,11 +548,25 @@ func (s *mStore) GetBalances(ctx context.Context, query ledgerstore.BalanceQuery
 			ret[account] = map[string]*big.Int{}
 		}
 		for _, asset := range assets {
+			if absent[volKey(account, asset)] {
+				ret[account][asset] = new(big.Int) // no row in the statement's snapshot
+				continue
+			}
 			v := s.volumes(account, asset)
 			ret[account][asset] = new(big.Int).Sub(v.Input, v.Output)
 		}
 	}
 	return ret, nil
+}
+
+// hasRow: does accounts_volumes hold a row for the pair, as this statement sees the table
+func (s *mStore) hasRow(account, asset string) bool {
+	st := s.state()
+	if st.vols[account] == nil {
+		return false
+	}
+	_, ok := st.vols[account][asset]
+	return ok
 }
 
 func (s *mStore) CommitTransaction(ctx context.Context, tx *ledger.Transaction) error {
